@@ -172,6 +172,29 @@ class Interp:
             if any(isinstance(v, Comp) for v in vals):
                 return Comp()
             raise Undecidable("list of non-scalars")
+        if isinstance(e, (ast.ListComp, ast.GeneratorExp)):
+            # [f(i) for i in range(<constants>)]: the element is evaluated for every i (unrolled)
+            if len(e.generators) != 1 or e.generators[0].ifs or e.generators[0].is_async:
+                raise Undecidable("comprehension with a filter / several generators")
+            g = e.generators[0]
+            if not (isinstance(g.iter, ast.Call) and isinstance(g.iter.func, ast.Name) and g.iter.func.id == "range" and isinstance(g.target, ast.Name)):
+                raise Undecidable("comprehension that is not over range(<constants>)")
+            rargs = []
+            for a in g.iter.args:
+                v = self.ev(a, env)
+                if not (isinstance(v, Const) and isinstance(v.v, int)):
+                    raise Undecidable("comprehension bound is not a constant")
+                rargs.append(v.v)
+            vals = []
+            for i in range(*rargs):
+                env2 = dict(env)
+                env2[g.target.id] = Const(i)
+                vals.append(self.ev(e.elt, env2))
+            if all(isinstance(v, Sc) for v in vals):
+                return ScArr()
+            if any(isinstance(v, Comp) for v in vals):
+                return Comp()
+            raise Undecidable("comprehension of non-scalars")
         if isinstance(e, ast.Compare):
             for x in [e.left] + e.comparators:
                 self.ev(x, env)
